@@ -13,16 +13,20 @@
 #ifndef AWS_FMTMAX
 #define AWS_FMTMAX 320		/* longest format string */
 #endif
-#ifndef AWS_OUTMAX
-#define AWS_OUTMAX 320		/* capacity of a result block (rendered length < AWS_OUTMAX) */
+#ifndef AWS_ABSMAX
+#define AWS_ABSMAX 24		/* longest abstract stand-in for a formatted string */
 #endif
+
+struct aws_snap {
+	uint8_t b[AWS_ABSMAX + 1];
+};
 
 struct aws_fmt_rec {
 	struct aws_stream s;		/* what was asked to be printed, in normal form */
 	int failed;			/* the call returned -1 */
-	size_t len;			/* rendered length */
+	size_t len;			/* length of the stand-in */
 	const char * result;		/* the block handed to the caller */
-	uint8_t snap[AWS_OUTMAX];	/* its bytes at that moment */
+	struct aws_snap snap;		/* its bytes at that moment (NUL included) */
 };
 
 struct aws_fmt_ghost {
